@@ -325,7 +325,12 @@ def main(argv=None):
     if unknown_viols:
         rdir = os.path.join(HERE, "replays", pid)
         os.makedirs(rdir, exist_ok=True)
-        for mech, slot in unknown_viols.items():
+        shown = 0
+        for mech, slot in sorted(unknown_viols.items(), key=lambda kv: -kv[1]["count"]):
+            shown += 1
+            if shown > 8:
+                print(f"  ... and {len(unknown_viols) - 8} more violation signatures (see evidence)")
+                break
             ex = slot["examples"][0]
             safe = "".join(ch if ch.isalnum() or ch in "-_." else "_" for ch in mech)[:70]
             name = f"{safe}-{h64(ex['case']):016x}.json"
